@@ -44,7 +44,7 @@ TNextEv ==
            e == Ev IN
        /\ e.id = id /\ e.val = v.val                                               \* exactly the pending value, in bucket order
        /\ (wire \/ e.repeat = v.repeat) = TRUE
-       /\ ((wire /\ v.kind = "sync") \/ e.ts = v.ts) = TRUE                         \* (the sync response carries no timestamp)
+       /\ ((wire /\ id \in {"sync", "xsync"}) \/ e.ts = v.ts) = TRUE                         \* (the sync response carries no timestamp)
        /\ e.ts >= lastTs                                                           \* non-decreasing timestamps
        /\ e.id2 = e.id /\ e.ts2 = e.ts /\ e.val2 = e.val                          \* same config + same seed: same sequence
        /\ (v.kind = "sync" => \A o \in DOMAIN count : o = id \/ count[o] >= 1) = TRUE
